@@ -27,6 +27,15 @@ BENIGN = [
     ("zone_rr", "crates/dns-types/src/zones/deserialise.rs", "    if tokens.is_empty() {\n        return Err(Error::WrongLen { tokens });\n    }\n\n    if tokens.len() >= 4 {", "    if tokens.len() == 0 {\n        return Err(Error::WrongLen { tokens });\n    }\n\n    if tokens.len() > 3 {", "is_empty as len == 0, >= 4 as > 3"),
     ("zone_rr", "crates/dns-types/src/zones/deserialise.rs", "    if dotted_string == \"@\" {\n        if let Some(name) = origin {\n            Ok(name.clone())\n        } else {\n            Err(Error::ExpectedOrigin)\n        }", "    if dotted_string == \"@\" {\n        match origin {\n            Some(name) => Ok(name.clone()),\n            None => Err(Error::ExpectedOrigin),\n        }", "if-let as match"),
     ("names_text", "crates/dns-types/src/protocol/types.rs", "            if label_chars.is_empty() && i != chunks.len() - 1 {", "            if label_chars.is_empty() && i != chunks.len() - 1 && i != 0 {", "early rejection relaxed where from_labels rejects anyway"),
+    ("zone_names", "crates/dns-types/src/zones/serialise.rs", "                let labels_to_keep = name.labels.len() - apex.labels.len();", "                let kept = name.labels.len() - apex.labels.len();\n                let labels_to_keep = kept;", "introduced a local"),
+    ("zone_names", "crates/dns-types/src/protocol/types.rs", "        let mut out = String::with_capacity(self.len);\n        let mut first = true;", "        let mut first = true;\n        let mut out = String::new();", "swapped lets, no capacity hint"),
+    ("names_text", "crates/dns-types/src/protocol/types.rs", "        let mut labels = Vec::with_capacity(chunks.len());\n\n        for (i, label_chars) in chunks.iter().enumerate() {", "        let mut labels = Vec::new();\n\n        for (i, label_chars) in chunks.iter().enumerate() {", "no capacity hint"),
+    ("recursive", "crates/dns-resolver/src/recursive.rs", "        let mut resolve_candidates_locally = true;\n", "        // fast candidates first\n        let mut resolve_candidates_locally = true;\n", "added comment"),
+    ("recursive", "crates/dns-resolver/src/recursive.rs", "            let soa_rr = resolved.soa_rr().cloned();\n            rrs.append(&mut resolved.rrs());", "            let soa_rr = resolved.soa_rr().cloned();\n            let mut inner = resolved.rrs();\n            rrs.append(&mut inner);", "introduced a local"),
+    ("family", "crates/dns-resolver/src/recursive.rs", "                if address.is_some() {\n                    return address;\n                }\n            }\n        } else if let Ok(result)", "                if let Some(found) = address {\n                    return Some(found);\n                }\n            }\n        } else if let Ok(result)", "is_some as if-let"),
+    ("server", "crates/resolved/src/main.rs", "                            let id = match error {\n                                TcpError::TooShort { id, .. } => id,\n                                TcpError::IO { id, .. } => id,\n                            };", "                            let id = match error {\n                                TcpError::IO { id, .. } => id,\n                                TcpError::TooShort { id, .. } => id,\n                            };", "reordered match arms"),
+    ("hosts_conv", "crates/dns-types/src/hosts/types.rs", "        for (name, address) in hosts.v4 {\n            zone.insert(&name, RecordTypeWithData::A { address }, TTL);", "        for (name, address) in hosts.v4 {\n            let data = RecordTypeWithData::A { address };\n            zone.insert(&name, data, TTL);", "introduced a local"),
+    ("wire_decode", "crates/dns-types/src/protocol/deserialise.rs", "        let rdata_stop = buffer.position;\n\n        if rdata_stop == rdata_start + (rdlength as usize) {", "        let rdata_stop = buffer.position;\n\n        if rdata_start + (rdlength as usize) == rdata_stop {", "flipped equality"),
     ("hosts_text", "crates/dns-types/src/hosts/deserialise.rs", "    if new_names.is_empty() {\n        Ok(None)\n    } else {\n        Ok(Some((address, new_names)))\n    }", "    if !new_names.is_empty() {\n        Ok(Some((address, new_names)))\n    } else {\n        Ok(None)\n    }", "negated condition, swapped branches"),
     ("hosts_text", "crates/dns-types/src/hosts/deserialise.rs", "        let mut hosts = Self::new();\n        for line in data.lines() {", "        let mut hosts = Self::new();\n        // one mapping line at a time\n        for line in data.lines() {", "added comment"),
     ("hosts_conv", "crates/dns-types/src/hosts/types.rs", "        let mut zone = Self::default();\n        for (name, address) in hosts.v4 {", "        let mut zone = Zone::default();\n        for (name, address) in hosts.v4 {", "Self as Zone"),
